@@ -17,3 +17,20 @@ func vMin(a, b int) int {
 	}
 	return b
 }
+
+// bcrypt contract (engine-only replacement; native replay uses the real bcrypt):
+// hash = "H:" ++ password;  Compare(h, p) == nil  <=>  h == "H:" ++ p.
+func vStub_bcrypt_GenerateFromPassword(password []byte, cost int) ([]byte, error) {
+	return append([]byte("H:"), password...), nil
+}
+
+type vErr struct{}
+
+func (vErr) Error() string { return "verif: stub error" }
+
+func vStub_bcrypt_CompareHashAndPassword(hashedPassword, password []byte) error {
+	if string(hashedPassword) == "H:"+string(password) {
+		return nil
+	}
+	return vErr{}
+}
